@@ -259,6 +259,14 @@ def strip(ex, p, s, chars=None, left=True, right=True):
             return S(t.strip(arg), s.kind)
         return S(t.lstrip(arg) if left else t.rstrip(arg), s.kind)
     chunks = list(s.chunks)
+    if chars is None and left and right:
+        # reply lines produced by the port model are pre-classified: a blank line (only whitespace) or a
+        # text line that carries its own stripped core
+        if len(chunks) == 1 and isinstance(chunks[0], Atom) and getattr(chunks[0], 'stripped', None) is not None:
+            return VStr([chunks[0].stripped], s.kind)
+        if chunks and all((isinstance(c, str) and not c.strip()) or
+                          (isinstance(c, Atom) and c.incl is not None and c.incl <= WS) for c in chunks):
+            return S('', s.kind)
     # peel literal whitespace at the edges while the edge chunk is a literal
     if left:
         while chunks and isinstance(chunks[0], str):
